@@ -439,6 +439,13 @@ F_C12_step(cfg, pre, post) ==
              IN s.n \in 1..NN(post) /\ cfg.nodes[s.n].kind = "sched" =>
                    s.s > 0 /\ \E b \in DOMAIN post.nodes[s.n].srv :
                                  post.nodes[s.n].srv[b].id = s.s /\ ~post.nodes[s.n].srv[b].off)
+       \cup Chk("C12.timetable-event-first-among-the-node's-simultaneous-events",
+             \* a shift change / slot of node n that is due now is executed before any other event of node n
+             \* (documented order of simultaneous events at one node); otherwise services end, start or renege
+             \* under the server numbers of the shift that is already over
+             n0 \in 1..NN(pre) /\ cfg.nodes[n0].kind \in {"sched", "slot"}
+                /\ post.ev.kind \in {"end_service", "renege", "class_change"}
+             => pre.nodes[n0].shd > post.ev.date)
        \cup Chk("C12.shift-change-at-declared-date",
              isShift /\ n0 \in 1..NN(pre) /\ cfg.nodes[n0].kind = "sched" =>
                 post.ev.date = pre.nodes[n0].shd
@@ -589,6 +596,15 @@ F_C08_step(cfg, pre, post) ==
                  resumed == (IsLive(pre, s.i) /\ CuOf(pre, s.i).intr /\ CuOf(pre, s.i).loc = s.n)
                             \/ \E b \in 1..(a-1) : post.steps[b].k = "interrupt" /\ post.steps[b].i = s.i
              IN (prev # {} /\ post.steps[SetMax(prev)].i = s.i) \/ byClassChange \/ resumed)
+       \cup Chk("C08.slotted-start-was-chosen", \A a \in IdxOf(post, "start") :
+             \* at slotted nodes (no server objects, hence no attach step) a customer starts only if it was the one
+             \* just returned by choose_next_customer, or an interrupted customer being resumed
+             LET s == post.steps[a]
+                 prev == {b \in 1..(a-1) : post.steps[b].k \in {"choose", "start"} /\ post.steps[b].n = s.n}
+                 resumed == (IsLive(pre, s.i) /\ CuOf(pre, s.i).intr /\ CuOf(pre, s.i).ss = NONE)
+                            \/ \E b \in 1..(a-1) : post.steps[b].k = "interrupt" /\ post.steps[b].i = s.i
+             IN s.n \in DOMAIN cfg.nodes /\ cfg.nodes[s.n].kind = "slot" /\ ~resumed
+                => prev # {} /\ post.steps[SetMax(prev)].k = "choose" /\ post.steps[SetMax(prev)].i = s.i)
        \cup Chk("C08.class-change-preemptor-is-first", \A a \in IdxOf(post, "preempt") :
              \* after the event nobody of higher, or equal priority and earlier arrival (FIFO), is left waiting
              LET s == post.steps[a]
